@@ -70,6 +70,15 @@ impl Writeable for Noop {
     }
 }
 
+/// keeps the writer thread busy for a while, so that the requests issued meanwhile end up in one transaction
+pub struct Busy(pub u64);
+impl Writeable for Busy {
+    fn write(&mut self, _conn: &rusqlite::Connection) -> Result<(), rusqlite::Error> {
+        std::thread::sleep(std::time::Duration::from_millis(self.0));
+        Ok(())
+    }
+}
+
 pub struct Peer {
     pub name: String,
     pub id: Identity,
